@@ -39,11 +39,18 @@ MANIFEST = {
             "routine that also deletes older checkpoints is crash safe at every crash point (between and after the deletions "
             "included) for every table accepted by wfSaveX (well-formed core, deletions only after the pointer moved) and "
             "every set of deleted labels not containing the new one — deleting before the pointer moved, or deleting the "
-            "label just written, are proved violation witnesses. "
+            "label just written, are proved violation witnesses; the second failure mode of a save — an EXCEPTION raised "
+            "inside any of its write calls (Python unwinds, with / finally clean-up runs) — is safe for every table whose "
+            "exceptional path only closes files (decidable wfUnwind, translated from the with / try-finally / context-manager "
+            "structure of save; a rename in a finally clause is a proved violation witness). "
             "(trainer machine, arbitrary model / loss / optimiser / schedule) a clean stop after iteration t and resume at "
             "label+1, and a SIGINT or RuntimeError inside any iteration i >= 5 (exit path saves the pre-iteration state under "
             "i-1), continue on exactly the uninterrupted trajectory (parameters, optimiser state, last_epoch hence all later "
-            "learning rates, scaler); for i < 5 nothing is saved; every history of processes ended by disappearance, SIGINT "
+            "learning rates, scaler); for i < 5 nothing is saved; a death at any statement boundary of an iteration outside "
+            "the kill path (during / after the optimiser update, around lr_scheduler.step(), at the entry of the periodic "
+            "save, inside write_to_logs) saves nothing and keeps the directory invariant, and of the loop body only "
+            "_do_iteration may be inside the try that routes to the kill path (translated tryEvents, decidable wfTry; the "
+            "optimiser step inside that try is a proved violation witness); every history of processes ended by disappearance, SIGINT "
             "or a crash inside a checkpoint save ends in the uninterrupted final state, for every k >= 1 provided each "
             "resume finds a 'latest' label t with (t+1) % k = 0 (vacuous for k = 1) — ALSO for the engine machine with "
             "validation data, start_with_validation and mode-dependent additional models (validation ends with "
@@ -73,7 +80,10 @@ MANIFEST = {
             "into objects built with another learning rate, and real Engine.train histories (validation data, "
             "initialization, start_with_validation, resume=False, finished runs, real SIGINTs, RuntimeErrors, crashes inside "
             "saves; a third of them with the engine's own enabled GradScaler, mixed_precision=True) compared exactly with the "
-            "model, events included; every constructor option of the Checkpointer found by introspection is traced with "
+            "model, events included — with real SIGINTs delivered at every statement boundary of an iteration (optimizer step "
+            "pre / post hooks, before / after lr_scheduler.step(), save entry, write_to_logs), not only inside _do_iteration; "
+            "real saves whose payload / label write raises OSError / KeyboardInterrupt / ProcessKilledException after 0 / 1 / "
+            "half / len-1 bytes in four save histories (re-saving the label 'latest' points to included); every constructor option of the Checkpointer found by introspection is traced with "
             "non-default values and its crash states are enumerated on the real code.",
     "note": "Trusted: Lean kernel, AST translator, strace canonicalisation, 'os.replace is atomic / open(w) truncates / write "
             "appends / a torch file is loadable iff complete' (the last one is probed on every run with truncated real "
@@ -114,6 +124,8 @@ TRUSTED = [
     "validation_loop / write_to_logs and wrapping Checkpointer.save, gc.collect() stubbed during validation, "
     "communication.is_main_process patched for the non-main-rank run, download_url stubbed for the URL case",
     "ModeAux (output doubled in training mode) as the stand-in for mode-dependent layers",
+    "exception injection into a real save by proxying torch.save / open inside direct.checkpointer; SIGINT delivery from "
+    "optimizer step hooks, the scheduler subclass, the save wrapper and write_to_logs",
 ]
 ASSUMPTIONS = [
     "batches are a function of the iteration index (sequential batch sampler supplied by the harness)",
@@ -127,7 +139,7 @@ RULE = ("crash states: every prefix of the traced operation list of a real save,
         "training histories: 6..16 iterations, checkpoint_steps 1..4, stops = disappearance / SIGINT before or after backward "
         "/ death at 6 points of a checkpoint save; engine histories (vtrain): 8..16 iterations, validation every 2..7 with or "
         "without validation data, mode-dependent additional model, per process resume / initialization / "
-        "start_with_validation flags, RuntimeError exits, a process resuming a finished run, a restart with resume=False; "
+        "start_with_validation flags, RuntimeError exits, SIGINTs at statement boundaries 2..7 of an iteration, a process resuming a finished run, a restart with resume=False; "
         "API: modules with 1..3 named parameters, DataParallel on any of the four modules, missing / extra keys, kwargs, "
         "save_to_disk, all argument forms of load; every unknown constructor option of the Checkpointer with 1-2 non-default "
         "values: traced saves, every crash prefix of the first three scenarios; non-trivial = a crash point strictly inside save, a history with at "
